@@ -134,6 +134,27 @@ async def restart_scenario(case: dict[str, Any], out: dict[str, Any]) -> None:
             await start_component(Root)
         starts.append(list(ran))
     out["later"] = starts
+    # a factory-style component: the class named in add_component() hands out an instance of a concrete subclass (chosen in
+    # __new__), and only the concrete class has the methods - it is the component's own class that counts
+    class Transport(Component):
+        def __new__(cls, *args: Any, **kwargs: Any) -> Any:
+            return super().__new__(Tcp if cls is Transport else cls)
+
+    class Tcp(Transport):
+        async def prepare(self) -> None:
+            ran.append("tcp.prepare")
+
+        async def start(self) -> None:
+            ran.append("tcp.start")
+
+    class Root2(Component):
+        def __init__(self) -> None:
+            self.add_component("transport", Transport)
+
+    ran.clear()
+    async with Context():
+        await start_component(Root2)
+    out["factory_style"] = list(ran)
     order = ["root.prepare", "kid.prepare", "kid.start", "root.start"]
     out["expected"] = [x for x in order if x.split(".")[1] in ({"both": ("prepare", "start")}.get(case["root_gains" if x.startswith("root") else "child_gains"],
                                                                                                (case["root_gains" if x.startswith("root") else "child_gains"],)))]
@@ -159,6 +180,9 @@ def run_restart(case: dict[str, Any]) -> dict[str, Any]:
                 V.append({"key": "start-method-missing", "msg": f"start #{i + 2} of component classes that had gained their prepare()/start() after the first start ran {got}, "
                                                                 f"expected {out['expected']}", "witness": {"case": case}})
                 break
+        if out["factory_style"] != ["tcp.prepare", "tcp.start"]:
+            V.append({"key": "start-method-missing", "msg": f"a component whose class hands out an instance of a concrete subclass from __new__: the concrete class's "
+                                                            f"prepare()/start() ran as {out['factory_style']}", "witness": {"case": case}})
     return {"violations": V, "sig": ("restart", tuple(sorted(case.items()))), "nontrivial": True, "counters": {"classes_started_again_after_gaining_methods": 1}, "sample": None}
 
 
